@@ -22,6 +22,9 @@ def histories(chk, tier):
     if tier == "quick":
         hs += wcommon.gen_histories(chk, [1], [1, 2, 3, 4, 5], 1, 3)                       # shape: all null patterns, all splits
         hs += wcommon.gen_histories(chk, [2, 3, 4, 5, 6, 7, 8], [0, 2, 9], 3, 2, nullmode="runs", simulate=40, depth=40, workers=4)
+        # every run-structured null pattern of 9, 10 and 12 rows in one batch: level runs and literal groups of the page's
+        # level block end in every way (partly filled literal group followed by a long run, ...)
+        hs += wcommon.gen_histories(chk, [1], [9, 10, 12], 1, 1, nullmode="runs")
     else:
         hs += wcommon.gen_histories(chk, [1], [1, 2, 3, 4, 5, 6], 1, 3)
         hs += wcommon.gen_histories(chk, [1], [9, 10, 17], 1, 2, nullmode="runs", limit=20000)
